@@ -733,8 +733,9 @@ def unit_interp(ctx):
     else:
         perm = (0, 1, 2)
     axname = ctx.choose("axis", axes)
-    angname = ctx.choose("angle", angs)
     form = ctx.choose("form", list(FORMS))
+    # two vectors to be aligned may enclose an obtuse angle: offered for that form also in the quick tier
+    angname = ctx.choose("angle", angs + (["120deg", "-135deg"] if quick and form == "align" else []))
     n = ctx.choose("n", [None, EXPLICIT_N])
     call = general_args(axname, angname, form)
     if call is None:
